@@ -223,6 +223,71 @@ def load(R):
                         "forall(obj, lambda im: implies(not same(im, caller_memento.invocation_metadata), len(im.invocations) == old(len(im.invocations))))"],
                modifies=["heap:function_dependencies", "heap:invocations"])
 
+    # ---------------------------------------------------------------- C10: ResourceFunction.__call__
+    # From the property ("the metadata recorded for a call lists ... the external resource handles the body obtained"): the handle the wrapped function
+    # returns is appended to the resources of the CALLING frame's memento (and to nothing else); whatever the wrapped function returns is returned.
+    R.attr("resources", TList(TObj()), mutable=True)
+    R.uf("resource_handle", [TObj(), TObj(), TObj()], TObj())
+    R.entity("ResourceFunction", ("resource_function", "ResourceFunction"), dict(fn=TObj("nn:callable")))
+    RES = "CallStack.get()._frames[-1].memento.invocation_metadata.resources"
+
+    def call_wrapped_resource_fn(ex, fv, args, kwargs):
+        """self.fn(*args, **kwargs): user code -- returns a handle that is a function of (fn, args, kwargs) within the call, or raises anything; it does
+        not touch the framework's records (assumed: resource functions do not call memento functions)."""
+        a = [x.obj if isinstance(x, VStar) else x for x in args]
+        if len(a) != 1 or set(kwargs) != {"**"}:
+            raise Unsupported("opaque call of this shape: %r %r %r" % (fv, args, kwargs))
+        if ex.choose([z3.BoolVal(True), z3.BoolVal(True)]) == 1:
+            raise PyRaise(VExc("Exception", [], exact=False))
+        return VObj(R.ufs["resource_handle"][0](fv.t, ex.box(a[0]), ex.box(kwargs["**"])))
+    R.opaque_call_hook = call_wrapped_resource_fn
+    R.assume("a wrapped resource function returns a handle or raises; it does not touch the call stack or the recorded invocations / resources")
+    R.contract("resource_function:ResourceFunction.__call__", prop="C10", types={"self": TEnt("ResourceFunction"), "args": TObj("nn:tuple"), "kwargs": TObj("nn:dict")}, returns=TObj(),
+               ensures=["same(result, resource_handle(self.fn, args, kwargs))",
+                        "stack_unchanged(CallStack.get()._frames)",
+                        "implies(old(truthy(CallStack.get()._frames)), len(%s) == old(len(%s)) + 1 and same(%s[old(len(%s))], result))" % (RES, RES, RES, RES),
+                        "implies(old(truthy(CallStack.get()._frames)), forall(int, lambda j: implies(0 <= j and j < old(len(%s)), same(%s[j], old(%s[j])))))" % (RES, RES, RES),
+                        # no other record changes
+                        "forall(obj, lambda im: implies(not old(truthy(CallStack.get()._frames)) or not same(im, CallStack.get()._frames[-1].memento.invocation_metadata), "
+                        "len(im.resources) == old(len(im.resources))))"],
+               raises={"Exception+": ["forall(obj, lambda im: len(im.resources) == old(len(im.resources)))"]},
+               modifies=["heap:resources"])
+
+    # ---------------------------------------------------------------- C16: the modifiers with_context_args / with_prevent_further_calls
+    # From the property: context arguments attached to a call "replace them entirely" (the clone's recursive context carries exactly the given dict, every
+    # other field of the context is the original's, the original function object keeps its context); "a call made with further calls prevented": the clone's
+    # recursive context carries the flag.
+    if "context" not in R.attrs:
+        R.attr("context", IC)
+    R.uf("clone_result", [TObj(), TInt], TObj())
+
+    def clone_with(ex, recv, args, kwargs):
+        """self.clone_with(context=...): abstract in MementoFunctionBase -- the clone is recorded (ghost 'cw_context': the context it is given; 'cw_calls')."""
+        if args or set(kwargs) != {"context"}:
+            raise Unsupported("clone_with of this shape")
+        g = ex.st.ghost
+        g["cw_calls"] = VInt(g["cw_calls"].t + 1)
+        g["cw_context"] = kwargs["context"]
+        return VObj(R.ufs["clone_result"][0](recv.t, g["cw_calls"].t))
+    R.obj_method_hooks["clone_with"] = clone_with
+    CWG = {"cw_calls": TInt, "cw_context": IC}
+    B_ = "base:MementoFunctionBase."
+    SAME_BUT = lambda field: " and ".join(["ghost('cw_context').recursive.%s == self.context.recursive.%s" % (f, f) for f, _ in RC.fields if f not in (field, "context_args", "correlation_id")]
+                                          + ["same(ghost('cw_context').recursive.%s, self.context.recursive.%s)" % (f, f) for f in ("context_args", "correlation_id") if f != field]
+                                          + ["ghost('cw_context').local == self.context.local"])
+    R.contract(B_ + "with_context_args", prop="C16", types={"self": TObj("nn:MementoFunctionBase"), "context_args": TObj()}, returns=TObj(), ghost_params=CWG,
+               ensures=["ghost('cw_calls') == old(ghost('cw_calls')) + 1", "same(result, clone_result(self, ghost('cw_calls')))",
+                        "same(ghost('cw_context').recursive.context_args, context_args)", SAME_BUT("context_args"),
+                        "self.context == old(self.context)"],
+               # the function's own assert (an obligation of the function given this precondition): the dict is a fresh one, not the current one modified in place
+               requires=["not same(context_args, self.context.recursive.context_args)"],
+               modifies=["ghost:cw_calls", "ghost:cw_context"])
+    R.contract(B_ + "with_prevent_further_calls", prop="C16", types={"self": TObj("nn:MementoFunctionBase"), "prevent_calls": TBool}, returns=TObj(), ghost_params=CWG,
+               ensures=["ghost('cw_calls') == old(ghost('cw_calls')) + 1", "same(result, clone_result(self, ghost('cw_calls')))",
+                        "ghost('cw_context').recursive.prevent_further_calls == prevent_calls", SAME_BUT("prevent_further_calls"),
+                        "self.context == old(self.context)"],
+               modifies=["ghost:cw_calls", "ghost:cw_context"])
+
     # ---------------------------------------------------------------- C02: process_existing_memento
     R.contract("runner:process_existing_memento", prop="C02", types={"storage_backend": S, "existing_memento": M, "ignore_result": TBool}, returns=EMR,
                ghost_params=GH,
@@ -328,7 +393,11 @@ def load(R):
         g["rc_fns"] = kwargs["fn_reference_with_args"]
         g["rc_caller"] = VObj(ex.box(kwargs["caller_memento"]))
         g["rc_storage"] = kwargs["storage_backend"]
-        return ex.sym(TList(TObj()), "runner_result!%d" % ex._bump())
+        res = ex.sym(TList(TObj()), "runner_result!%d" % ex._bump())
+        # interface contract of RunnerBackend.batch_run ("a list, the same list as fn_reference_with_args"): one slot per reference (proved for the local runner, C15)
+        ex.assume(ex.cont(res).n == ex.cont(kwargs["fn_reference_with_args"]).n)
+        g["rc_result"] = res
+        return res
     R.obj_method_hooks["batch_run"] = runner_batch_run
 
     TOPF = "CallStack.get()._frames[-1]"
@@ -336,7 +405,7 @@ def load(R):
     R.contract("runner_local:memento_run_batch", prop="C16",
                types={"context": IC, FNS: TList(FWA), "storage_backend": S, "runner_backend": TObj("nn:RunnerBackend"), "log_runner_backend": TObj("nn:RunnerBackend")},
                returns=TList(TObj()),
-               ghost_params={"runner_calls": TInt, "rc_runner": TObj(), "rc_context": IC, "rc_fns": TList(FWA), "rc_caller": TObj(), "rc_storage": S},
+               ghost_params={"runner_calls": TInt, "rc_runner": TObj(), "rc_context": IC, "rc_fns": TList(FWA), "rc_caller": TObj(), "rc_storage": S, "rc_result": TList(TObj())},
                ensures=[# a call under `prevent further calls` never reaches a runner (see raises); otherwise exactly one dispatch
                         "not (old(truthy(%s)) and %s.recursive_context.prevent_further_calls)" % (FR_, TOPF),
                         "ghost('runner_calls') == old(ghost('runner_calls')) + 1",
@@ -352,10 +421,63 @@ def load(R):
                         "forall(int, lambda j: implies(0 <= j and j < len(%s), same(ghost('rc_fns')[j].fn_reference, %s[j].fn_reference) and same(ghost('rc_fns')[j].args, %s[j].args) "
                         "and same(ghost('rc_fns')[j].kwargs, %s[j].kwargs) and implies(not (context.recursive.context_args is not None or not old(truthy(%s))), same(ghost('rc_fns')[j].context_args, %s))))" % (FNS, FNS, FNS, FNS, FR_, EFF_CTX),
                         "implies(context.recursive.context_args is not None or not old(truthy(%s)), forall(int, lambda j: implies(0 <= j and j < len(%s), same(ghost('rc_fns')[j], %s[j]))))" % (FR_, FNS, FNS),
+                        # what the runner returns is returned, slot by slot
+                        "len(result) == len(ghost('rc_result')) and len(result) == len(%s)" % FNS,
+                        "forall(int, lambda j: implies(0 <= j and j < len(result), same(result[j], ghost('rc_result')[j])))",
+                        "same(ghost('rc_storage'), storage_backend)",
                         "stack_unchanged(%s)" % FR_],
                raises={"RuntimeError": ["old(truthy(%s)) and %s.recursive_context.prevent_further_calls" % (FR_, TOPF), "ghost('runner_calls') == old(ghost('runner_calls'))"]},
                loops={1: ["len(comp_result) == loop_i",
                           "forall(int, lambda j: implies(0 <= j and j < loop_i, same(comp_result[j].fn_reference, %s[j].fn_reference) and same(comp_result[j].args, %s[j].args) "
                           "and same(comp_result[j].kwargs, %s[j].kwargs) and same(comp_result[j].context_args, context.recursive.context_args)))" % (FNS, FNS, FNS)]},
                labels={"comp_types": {1: TObj("nn:FunctionReferenceWithArguments")}},
-               modifies=["ghost:runner_calls", "ghost:rc_runner", "ghost:rc_context", "ghost:rc_fns", "ghost:rc_caller", "ghost:rc_storage"])
+               modifies=["ghost:runner_calls", "ghost:rc_runner", "ghost:rc_context", "ghost:rc_fns", "ghost:rc_caller", "ghost:rc_storage", "ghost:rc_result"])
+
+    # ---------------------------------------------------------------- C15: MementoFunctionBase.call_batch / map_over_range
+    # From the property ("position by position what individual calls return ... Failures appear in their slots, or the first one is raised when so
+    # requested"): call_batch hands memento_run_batch one reference per element of kwargs_list, IN ORDER, each for this function (its current reference), with
+    # no positional arguments, the element's keyword arguments and this function's context arguments; it returns the runner's list unchanged, or raises the
+    # FIRST exception in it when asked to.  map_over_range evaluates one call per value, in order, and maps each value to the result of ITS call.
+    R.uf("fnref_of", [TObj()], TObj())
+    R.uf("the_env", [], TObj())
+    R.uf("cluster_of", [TObj(), TObj()], TObj())
+    R.attr("cluster_name", TObj())
+    R.attr("storage", TObj("StorageA"))
+    R.attr("runner", TObj("nn:RunnerBackend"))
+    R.obj_method_hooks["fn_reference"] = lambda ex, recv, args, kwargs: VObj(R.ufs["fnref_of"][0](recv.t))
+
+    def env_get(ex, args, kwargs):
+        o = R.ufs["the_env"][0]()
+        ex.assume(o != PyNone)
+        return VObj(o, "Environment")
+    R.func_hooks["configuration:Environment.get"] = env_get
+    R.obj_method("get_cluster", types={"self": TObj(), "arg0": TObj()}, returns=TObj(), ensures=["same(result, cluster_of(self, arg0))"])
+    CLUSTER = "cluster_of(the_env(), fnref_of(self).cluster_name)"
+    R.obj_method_hooks["keys"] = lambda ex, recv, args, kwargs: ex.obj_as_list(recv)      # the keys of an opaque mapping, in its own order
+    CB_G = {"runner_calls": TInt, "rc_runner": TObj(), "rc_context": IC, "rc_fns": TList(FWA), "rc_caller": TObj(), "rc_storage": S, "rc_result": TList(TObj())}
+    EXC_AT = "first_index(ghost('rc_result'), lambda x: isinstance(x, Exception))"
+    R.contract(B_ + "call_batch", prop="C15", types={"self": TObj("nn:MementoFunctionBase"), "kwargs_list": TList(TObj("nn:dict")), "raise_first_exception": TBool},
+               returns=TList(TObj()), ghost_params=CB_G,
+               requires=["fnref_of(self) is not None"],
+               ensures=["ghost('runner_calls') == old(ghost('runner_calls')) + 1",
+                        # what reaches the runner: one reference per element, in order, for this function, no positional arguments, the element's keyword arguments
+                        "len(ghost('rc_fns')) == len(kwargs_list)",
+                        "forall(int, lambda j: implies(0 <= j and j < len(kwargs_list), same(ghost('rc_fns')[j].fn_reference, fnref_of(self)) and len(ghost('rc_fns')[j].args) == 0 "
+                        "and same(ghost('rc_fns')[j].kwargs, kwargs_list[j])))",
+                        "ghost('rc_context').local == self.context.local",
+                        "implies(not self.context.local.force_local, same(ghost('rc_runner'), %s.runner))" % CLUSTER, "same(ghost('rc_storage'), %s.storage)" % CLUSTER,
+                        # the runner's list, slot by slot
+                        "len(result) == len(kwargs_list)", "forall(int, lambda j: implies(0 <= j and j < len(result), same(result[j], ghost('rc_result')[j])))",
+                        "implies(raise_first_exception, forall(int, lambda j: implies(0 <= j and j < len(result), not isinstance(result[j], Exception))))"],
+               raises={"TypeError": ["ghost('runner_calls') == old(ghost('runner_calls'))"],
+                       "ValueError": ["%s is None" % CLUSTER, "ghost('runner_calls') == old(ghost('runner_calls'))"],
+                       "RuntimeError": ["ghost('runner_calls') == old(ghost('runner_calls'))"],
+                       "Exception+": ["raise_first_exception", "ghost('runner_calls') == old(ghost('runner_calls')) + 1", "%s < len(ghost('rc_result'))" % EXC_AT,
+                                      "same(exc, ghost('rc_result')[%s])" % EXC_AT]},
+               loops={1: ["True"], 2: ["len(comp_result) == loop_i",
+                          "forall(int, lambda j: implies(0 <= j and j < loop_i, same(comp_result[j].fn_reference, fnref_of(self)) and len(comp_result[j].args) == 0 "
+                          "and same(comp_result[j].kwargs, kwargs_list[j]) and same(comp_result[j].context_args, self.context.recursive.context_args)))"],
+                      3: ["forall(int, lambda j: implies(0 <= j and j < loop_i, not isinstance(result[j], Exception)))", "ghost('runner_calls') == old(ghost('runner_calls')) + 1",
+                          "len(result) == len(kwargs_list)", "forall(int, lambda j: implies(0 <= j and j < len(result), same(result[j], ghost('rc_result')[j])))"]},
+               labels={"comp_types": {2: TObj("nn:FunctionReferenceWithArguments")}},
+               modifies=["ghost:runner_calls", "ghost:rc_runner", "ghost:rc_context", "ghost:rc_fns", "ghost:rc_caller", "ghost:rc_storage", "ghost:rc_result"])
